@@ -25,13 +25,13 @@ CFGS = {
     ("C01", "thorough"): ["MC_Resolver_rank_t.cfg", "MC_Resolver_rank3_t.cfg", "MC_Resolver_supp_t.cfg"],
     ("C02", "quick"): ["MC_Resolver_correct_q.cfg", "MC_Resolver_supp_q.cfg"],
     ("C02", "thorough"): ["MC_Resolver_correct_t.cfg", "MC_Resolver_supp_t.cfg"],
-    ("C03", "quick"): ["MC_Resolver_score_q.cfg"],
-    ("C03", "thorough"): ["MC_Resolver_score_t.cfg", "MC_Resolver_score3_t.cfg"],
+    ("C03", "quick"): ["MC_Resolver_score_q.cfg", "MC_Resolver_frac_q.cfg"],
+    ("C03", "thorough"): ["MC_Resolver_score_t.cfg", "MC_Resolver_score3_t.cfg", "MC_Resolver_frac_q.cfg"],
 }
 MUTANTS = {"C01": [("MUT_Resolver_unstable_sort.cfg", "ShownIsBest")],
            "C02": [("MUT_Resolver_correct_or.cfg", "CorrectIff"),
                    ("MUT_Resolver_blank_message_skipped.cfg", "CorrectIff")],
-           "C03": [("MUT_Resolver_muted_unscored.cfg", "ScoreIs")]}
+           "C03": [("MUT_Resolver_muted_unscored.cfg", "ScoreIs"), ("MUT_Resolver_round_each.cfg", "ScoreIs")]}
 
 
 def case_key(prop, m):
